@@ -1,10 +1,20 @@
 #!/bin/sh
 # usage: seedconfirm.sh <Cxx>   — confirms a sub-agent's seeded change inside its scratch worktree:
 # demo fails with the change, passes without; copies the deliverables to /verif/seeded/<Cxx>/
+# (no `git stash`: the stash is shared by all worktrees of a repository; the tree is reset and the patch applied / reverted)
 id=$1; wt=/tmp/wt-$id
 cd $wt || exit 1
-echo "== with change"; CARGO_NET_OFFLINE=true cargo test --offline --test seeded_demo 2>&1 | grep -E "^test |test result" | head -5
-git stash push -q -- src && echo "== without change"; CARGO_NET_OFFLINE=true cargo test --offline --test seeded_demo 2>&1 | grep -E "^test |test result" | head -5
-git stash pop -q
+feat=$(jq -r '.features // ""' SEEDED/meta.json 2>/dev/null)
+[ -n "$feat" ] && F="--features $feat" || F=""
+git checkout -q -- . ; rm -f tests/seeded_demo.rs
+git apply --check SEEDED/patch.diff || { echo "patch does not apply to the clean tree"; exit 1; }
+git diff --stat SEEDED/patch.diff >/dev/null 2>&1
+echo "== files touched: $(grep '^+++ ' SEEDED/patch.diff | tr '\n' ' ')"
+cp SEEDED/seeded_demo.rs tests/seeded_demo.rs
+git apply SEEDED/patch.diff
+echo "== with change"; CARGO_NET_OFFLINE=true cargo test --offline $F --test seeded_demo 2>&1 | grep -E "^test |test result|^error" | head -8
+git apply -R SEEDED/patch.diff
+echo "== without change"; CARGO_NET_OFFLINE=true cargo test --offline $F --test seeded_demo 2>&1 | grep -E "^test |test result|^error" | head -8
+rm -f tests/seeded_demo.rs
 mkdir -p /verif/seeded/$id && cp SEEDED/patch.diff SEEDED/seeded_demo.rs SEEDED/meta.json /verif/seeded/$id/ 2>/dev/null
 ls /verif/seeded/$id
